@@ -9,7 +9,7 @@ META = dict(
               "success + {TRANSIENT, PERMANENT} x {exception, result, a None result flagged by the result classifier} (mixed histories), symbolic max_attempts, "
               "per-class limit for TRANSIENT, sleep handler SLEEP/DEFER/ABORT, budget tokens; fresh exception/result "
               "object per attempt, identity (`is`) compared",
-        thorough="N=4, plus UNKNOWN class with cap",
+        thorough="N=3 with the UNKNOWN class and cap added; N=4 over success / exception / result",
     ),
     assumptions=["frozen clock except where stated; zero strategy unless raw=real; attempt_timeout_s None",
                  "which stop reason is valid is C03's subject; here the delivered fields must describe the final attempt"],
@@ -97,14 +97,21 @@ def check_call(w, trace, result, sym):
 
 def jobs(tier):
     q = tier == "quick"
-    N = 3 if q else 4
     out = []
+    allk = ["ok", "exc", "res", "resnone", "exc_same"]
+    wall = 600 if q else 2400
     for entry in ENTRIES:
         for o1 in range(4):  # (exc_same needs a preceding exc, so it is never pinned as the first outcome)
             out.append(dict(name=f"run:{entry}:o1={o1}", harness="rv.props.c04:h_run",
-                            params=dict(entry=entry, N=N, kinds=["ok", "exc", "res", "resnone", "exc_same"],
+                            params=dict(entry=entry, N=3, kinds=allk,
                                         classes=["TRANSIENT", "PERMANENT"] + ([] if q else ["UNKNOWN"]),
                                         limits=["TRANSIENT"], cap=None if q else "sym", handler=True, budget="sym",
                                         pin={"o1": o1}),
-                            max_wall_s=600 if q else 3000, weight=2 if o1 else 1))
+                            max_wall_s=wall, weight=2 if o1 else 1))
+        if not q:  # one more attempt with the basic alphabet
+            for o1 in (1, 2):
+                out.append(dict(name=f"deep:{entry}:o1={o1}", harness="rv.props.c04:h_run",
+                                params=dict(entry=entry, N=4, kinds=["ok", "exc", "res"], classes=["TRANSIENT", "PERMANENT"],
+                                            limits=["TRANSIENT"], handler=True, budget=1, pin={"o1": o1}),
+                                max_wall_s=wall, weight=4))
     return out
